@@ -246,6 +246,44 @@ def run(src, tier, seed):
                     % (f['name'], sorted({b.get('ln') for b in bad})))
         else:
             res.ok(r, f['name'])
+    # the value: one more than the largest assumption order among *all* positive literals of the final conflict (the negated failing assumption, which has the
+    # highest order, is conflict[0]).  The block between analyzeFinal and the assignment is evaluated abstractly in every engine.
+    from boolctor import Interp, Unmodelled, Thrown
+    rv = res.rule('conflict-frame-value', 'in every engine the statements between analyzeFinal and the assignment of conflict_frame, evaluated abstractly on three final conflicts, give 1 + the '
+                  'largest assumption order over all positive literals of the conflict, wherever in the vector that literal stands', floor=2)
+    for f in an_callers.values():
+        done = False
+        for blk in (b for b in walk(f['body'], f.get('lambdas')) if b.get('k') == 'seq'):
+            items = [x for x in blk.get('c') or [] if isinstance(x, dict)]
+            i0 = next((i for i, st in enumerate(items) if st.get('k') == 'e' and is_call(see_through(st['e']), 'analyzeFinal')), None)
+            i1 = next((i for i, st in enumerate(items) if st.get('k') == 'e' and isinstance(see_through(st['e']), dict) and see_through(st['e']).get('k') == 'bin' and
+                       see_through(st['e']).get('op') == '=' and (path_of(see_through(st['e'])['l']) or '').endswith('conflict_frame')), None)
+            if i0 is None or i1 is None or i1 < i0:
+                continue
+            done = True
+            problems = []
+            for lits, want in (([('a', False), ('b', False), ('c', True)], 4), ([('b', False), ('a', False)], 4), ([('c', True), ('b', False)], 2)):
+                order = {('var', 'a'): 3, ('var', 'b'): 1, ('var', 'c'): 2}
+                it = Interp(fx, f, '?', {})
+                it.oracle = {'analyzeFinal': lambda i, a, n: None, 'sign': lambda i, a, n: a[0][2], 'var': lambda i, a, n: ('var', a[0][1]), 'op:~': lambda i, a, n: ('lit', a[0][1], not a[0][2])}
+                it.env = {'this.conflict': [('lit', v_, sg_) for v_, sg_ in lits], 'conflict': [('lit', v_, sg_) for v_, sg_ in lits], 'this.assumptions_order': order, 'assumptions_order': order,
+                          'p': ('lit', 'p', False), 'this.conflict_frame': 0}
+                it.steps = 0
+                try:
+                    for st in items[i0:i1 + 1]:
+                        it.block(st)
+                except (Unmodelled, Thrown) as e:
+                    raise AnalysisBroken('%s: the conflict-frame computation is outside the modelled subset: %s' % (f['name'], e))
+                got = it.env.get('this.conflict_frame')
+                if got != want:
+                    problems.append('for the final conflict %s (orders a=3, b=1, c=2) it computes %s, expected %s' % ([('-' if sg_ else '') + v_ for v_, sg_ in lits], got, want))
+            if problems:
+                res.bad(rv, 'conflict-frame-too-low:%s' % f['name'].split('::')[-1], fx.loc(f, items[i1].get('ln')), '%s: %s: a lower frame than the failing one is remembered as unsat, and check-sat keeps '
+                        'answering unsat after the real culprit has been popped (the engines then contradict each other)' % (f['name'].replace('opensmt::', ''), '; '.join(problems)))
+            else:
+                res.ok(rv, '%s: 1 + max order over all positive literals' % f['name'].replace('opensmt::', ''))
+        if not done:
+            raise AnalysisBroken('%s: analyzeFinal and the conflict_frame assignment are not in one block' % f['name'])
     writers = set()
     for f in fx.F.values():
         for n in fwalk(f):
